@@ -2,6 +2,7 @@ package drv
 
 import (
 	"bytes"
+	"compress/gzip"
 	"context"
 	"fmt"
 	"io"
@@ -626,7 +627,20 @@ func (t *tap) do(r *http.Request) (*http.Response, error) {
 		w.Frozen = http.Header{}
 		w.Status = 200
 	}
-	return &http.Response{StatusCode: w.Status, Status: strconv.Itoa(w.Status), Header: w.Frozen.Clone(), Body: &strictBody{r: bytes.NewReader(w.Body.Bytes())}, Request: r, Proto: "HTTP/1.1", ProtoMajor: 1, ProtoMinor: 1}, nil
+	hdr := w.Frozen.Clone()
+	body := w.Body.Bytes()
+	if strings.Contains(r.Header.Get("Accept-Encoding"), "gzip") && len(body) > 0 {
+		// the caller asked for gzip itself (net/http only undoes the compression it
+		// asked for on its own): answer like a server with a compression layer
+		var zb bytes.Buffer
+		zw := gzip.NewWriter(&zb)
+		_, _ = zw.Write(body)
+		_ = zw.Close()
+		body = zb.Bytes()
+		hdr.Set("Content-Encoding", "gzip")
+		hdr.Del("Content-Length")
+	}
+	return &http.Response{StatusCode: w.Status, Status: strconv.Itoa(w.Status), Header: hdr, Body: &strictBody{r: bytes.NewReader(body)}, Request: r, Proto: "HTTP/1.1", ProtoMajor: 1, ProtoMinor: 1}, nil
 }
 
 func (c *Ctx) newClient(t *tap) (reflect.Value, bool) {
